@@ -353,7 +353,7 @@ impl Property for C07 {
         900
     }
     fn quick_cases(&self) -> u64 {
-        160_000
+        1_600_000
     }
     fn states_termination(&self) -> bool {
         true
